@@ -101,7 +101,10 @@ def datetime_from_uuid1(uuid_arg):
 
     :param uuid_arg: a version 1 :class:`~uuid.UUID`
     """
-    return datetime_from_timestamp(unix_time_from_uuid1(uuid_arg))
+    # whole microseconds from the 100-ns tick count (rounded half up); float seconds cannot
+    # hold microseconds for instants far from 1970
+    microseconds = (uuid_arg.time - 0x01B21DD213814000 + 5) // 10
+    return DATETIME_EPOC + datetime.timedelta(microseconds=microseconds)
 
 
 def min_uuid_from_time(timestamp):
